@@ -396,13 +396,77 @@ func (t *ftr) zeroK(k tkind, ty types.Type, at ast.Node) string {
 	return "(mk_T_" + k.name + " " + strings.Join(parts, " ") + ")"
 }
 
-// fieldOK: the field is part of the emitted Record (its type is inside the subset).
+// fieldOK: the field is part of the emitted Record — its type is inside the subset and it does not
+// close a cycle in the struct graph (a job that points at its burst that points back at the job: read as
+// values such a pair would be infinite; the field that closes the cycle is left out, where it is first met).
 func fieldOK(st *types.Struct, i int) bool {
-	if st.Field(i).Name() == "_" {
-		return false
+	return keptFieldsOf(st)[i]
+}
+
+var (
+	keptMemo = map[*types.Struct][]bool{}
+	keptPath = map[*types.Struct]bool{}
+)
+
+// structUnder strips pointers, slices and arrays and returns the struct a value of ty is made of, if any.
+func structUnder(ty types.Type) *types.Struct {
+	for i := 0; i < 8; i++ {
+		switch u := types.Unalias(ty).(type) {
+		case *types.Pointer:
+			ty = u.Elem()
+			continue
+		case *types.Slice:
+			ty = u.Elem()
+			continue
+		case *types.Array:
+			ty = u.Elem()
+			continue
+		case *types.Named:
+			if isTimeTime(u) {
+				return nil
+			}
+			switch uu := u.Underlying().(type) {
+			case *types.Struct:
+				return uu
+			case *types.Slice:
+				ty = uu.Elem()
+				continue
+			case *types.Array:
+				ty = uu.Elem()
+				continue
+			}
+			return nil
+		}
+		return nil
 	}
-	_, ok := kindOfType(st.Field(i).Type())
-	return ok
+	return nil
+}
+
+func keptFieldsOf(st *types.Struct) []bool {
+	if m, ok := keptMemo[st]; ok {
+		return m
+	}
+	keptPath[st] = true
+	res := make([]bool, st.NumFields())
+	for i := range res {
+		f := st.Field(i)
+		if f.Name() == "_" {
+			continue
+		}
+		if _, ok := kindOfType(f.Type()); !ok {
+			continue
+		}
+		if inner := structUnder(f.Type()); inner != nil {
+			if keptPath[inner] {
+				continue // back edge
+			}
+			keptFieldsOf(inner)
+		}
+		res[i] = true
+	}
+	delete(keptPath, st)
+	keptMemo[st] = res
+	return res
 }
 
 func (t *ftr) zero(ty types.Type, at ast.Node) string {
@@ -423,7 +487,7 @@ func (t *ftr) ensureStruct(n *types.Named, at ast.Node) {
 	var fs []string
 	for i := 0; i < st.NumFields(); i++ {
 		fk, ok := kindOfType(st.Field(i).Type())
-		if !ok || st.Field(i).Name() == "_" {
+		if !ok || !fieldOK(st, i) {
 			// left out of the Record: a function that mentions the field is refused where it does
 			continue
 		}
@@ -789,6 +853,12 @@ func (t *ftr) expr(e ast.Expr) string {
 		if sel := namedOf(t.typeOf(e.X)); sel != nil {
 			if _, ok := sel.Underlying().(*types.Struct); ok && structPkgOK(sel.Obj().Pkg()) {
 				if _, isField := t.pi.info.Uses[e.Sel].(*types.Var); isField {
+					st := sel.Underlying().(*types.Struct)
+					for i := 0; i < st.NumFields(); i++ {
+						if st.Field(i).Name() == e.Sel.Name && !fieldOK(st, i) {
+							t.bad(e, "field %s of %s is left out of the translated Record (its type is outside the subset or it closes a cycle between structs)", e.Sel.Name, sel.Obj().Name())
+						}
+					}
 					t.ensureStruct(sel, e)
 					t.kindOf(e)
 					return "(T_" + structTag(sel) + "_" + e.Sel.Name + " " + t.expr(e.X) + ")"
